@@ -33,7 +33,8 @@ Go functions / templates mirrored (file: function → here):
 
 Also here: the small structural well-formedness judge `wfDirs` (the clauses of Spec/WellFormedConf that concern the
 rendered part: (listen, server_name) pairs, default_server per address, duplicate locations, `$match_key` keys and
-internal redirect targets, split_clients variable names / percentages, variables of `proxy_pass`). It is run by the
+internal redirect targets, split_clients variable names / percentages, variables of `proxy_pass`, arguments of
+`listen`). It is run by the
 driver on the REAL http.conf next to the big judge (agreement is reported in the evidence) and is the subject of
 `render_wellformed_fragment` (Props/C03Render.lean).
 Core-only.
@@ -359,6 +360,12 @@ def namesSafe (s : Scenario) : Bool :=
     r.ns.all nameChar && r.name.all nameChar && noDoubleHyphen r.ns &&
     r.rules.all fun rule => (backendsOf rule.action).all fun b => !b.target.contains '$'
 
+/-- listener ports of the served Gateway are TCP ports (the CRD admits 1..65535 only) -/
+def portsOK (s : Scenario) : Bool :=
+  match winner s with
+  | none => true
+  | some g => g.listeners.all fun l => decide (1 ≤ l.port) && decide (l.port ≤ 65535)
+
 /-! ### the small structural judge -/
 
 open NGF.WF (Issue str)
@@ -460,6 +467,12 @@ def serverIssues (mk : List (List Char × List (List Char))) (splitVars : List (
   dupIssue "duplicate-location" showPair (locs.map locKeyL) ++ keyIssues mk locs ++
     locs.flatMap fun l => (named "proxy_pass" (body l)).flatMap (passIssues splitVars)
 
+/-- the arguments of a `listen` directive, as `Spec/WellFormedConf.listenWhy` (`ngx_parse_url`) reads them -/
+def listenIssue (d : Dir) : List Issue :=
+  match NGF.WF.listenWhy (d.args.map (·.1)) with
+  | some why => [⟨"bad-listen", "listen " ++ " ".intercalate d.argStrings ++ ": " ++ why⟩]
+  | none => []
+
 /-- the judge: `ds` = the directives of the http block that come from http.conf, `mk` = matches.json (key → redirect paths) -/
 def wfDirs (ds : List Dir) (mk : List (List Char × List (List Char))) : List Issue :=
   let servers := blocksNamed "server" ds
@@ -471,6 +484,7 @@ def wfDirs (ds : List Dir) (mk : List (List Char × List (List Char))) : List Is
     if (splitVar sc).all NGF.WF.isVarChar && !(splitVar sc).isEmpty then [] else [⟨"variable-name-not-lexable", "split_clients $" ++ str (splitVar sc)⟩]) ++
   dupIssue "duplicate-variable-definition" (fun v => "http $" ++ str v) splitVars ++
   scs.flatMap splitIssues ++
-  servers.flatMap (serverIssues mk splitVars)
+  servers.flatMap (serverIssues mk splitVars) ++
+  servers.flatMap fun s => (named "listen" (body s)).flatMap listenIssue
 
 end NGF.Render
